@@ -484,13 +484,53 @@ def effective_decl(decl, vectorized):
     return {k: v for k, v in decl.items() if not (vectorized and k == "mem")}
 
 
-def run_binding_case(P, decl, events, vectorized):
-    """events: list of ("C", i, cls_attrs, settings) | ("S", i, settings) | ("U", i) | ("K", i).
+def expected_bound(decl, vectorized, ca, s):
+    """From the property text: the settings of THIS driver (declared job settings and class attributes take
+    precedence as documented by the `or` chains)."""
+    decl = effective_decl(decl, vectorized)
+    return (decl.get("exe") or ca.get("exe") or s["exe"],
+            decl.get("nprocs") or ca.get("nprocs") or s["nprocs"] or 1,
+            decl.get("mem") or s["mem"] or 1000,
+            {**(ca.get("env") or {}), **(s["env"] or {}), **(decl.get("env") or {})})
+
+
+NO_INST = dict(exe=None, nprocs=None, mem=None, env=None)
+FIELDS = ("executable", "nprocs", "memory", "envars")
+
+
+def run_binding_case(P, decl, events, vectorized, same_class=False, lazy=False):
+    """events: ("C", i, cls_attrs, settings) | ("S", i, settings) | ("U", i) | ("K", i)      create / reassign / use at once
+               ("G", i, h) | ("GK", i, h) | ("P", h)      h = d_i.job / h = type(d_i).job kept in a variable; h.prepare(..)
+    same_class: drivers created with equal class attributes are instances of ONE class (otherwise each driver has a
+    subclass of its own); lazy (vectorised jobs): the kept thing is the generator returned by prepare, consumed at P.
     -> (observations per event, violations)"""
     seen = []
     base = make_driver_class(P, decl, {}, vectorized, seen)
-    drivers, classes, cur = {}, {}, {}
+    drivers, classes, cur, held, shared_cls = {}, {}, {}, {}, {}
     obs, viol = [], []
+
+    def prepare_and_look(j, arg, gen=None):
+        """call prepare on a bound job (or consume the generator it returned earlier): what prep saw as self.*"""
+        del seen[:]
+        inp = gen if gen is not None else j.prepare([arg, arg + "b"] if vectorized else arg)
+        inps = list(inp) if vectorized else [inp]
+        if not seen or any(x != seen[0] for x in seen) or len(inps) != (2 if vectorized else 1):
+            viol.append(("C17:bind:prepare-inconsistent", f"prepare produced {len(inps)} inputs / settings {seen}"))
+            if not seen:
+                return None
+        exe, npr, mem, envd = seen[0]
+        for n_in, ji in enumerate(inps):
+            want_arg = (arg + "b" if n_in else arg)           # the caller's argument reaches the JobInput
+            if ji.commands[0][0] != f"{exe} -P {npr} -M {mem} {want_arg}" or ji.jid != want_arg or (ji.envars or {}) != (envd or {}) \
+                    or tuple(ji.return_files) != ("o.txt",):
+                viol.append(("C17:bind:jobinput-differs-from-bound-job", f"{ji} vs bound {seen[0]}"))
+        return (exe, npr, mem, envd)
+
+    def diff(got, *accepted):
+        """fields of `got` that agree with none of the accepted settings"""
+        g = (got[0], got[1], got[2], got[3] or {})
+        return [n for k, n in enumerate(FIELDS) if all(g[k] != w[k] for w in accepted)]
+
     for ev in events:
         if ev[0] == "C":
             _, i, ca, s = ev
@@ -498,7 +538,11 @@ def run_binding_case(P, decl, events, vectorized):
             if "exe" in ca: attrs["executable"] = ca["exe"]
             if "nprocs" in ca: attrs["nprocs"] = ca["nprocs"]
             if "env" in ca: attrs["envars"] = dict(ca["env"])
-            classes[i] = type(f"Sub{i}", (base,), attrs)       # subclasses share the parent's Job object
+            ck = json.dumps(ca, sort_keys=True)
+            if same_class and ck in shared_cls:
+                classes[i] = shared_cls[ck]                    # several live instances of the SAME class
+            else:
+                classes[i] = shared_cls[ck] = type(f"Sub{i}", (base,), attrs)   # subclasses share the parent's Job object
             drivers[i] = classes[i](s["exe"], nprocs=s["nprocs"], memory=s["mem"],
                                     envars=None if s["env"] is None else dict(s["env"]), check_exe=False, find=False)
             cur[i] = (ca, s)
@@ -509,36 +553,58 @@ def run_binding_case(P, decl, events, vectorized):
             d.executable, d.nprocs, d.memory, d.envars = s["exe"], s["nprocs"], s["mem"], (None if s["env"] is None else dict(s["env"]))
             cur[i] = (cur[i][0], s)
             obs.append(None)
-        else:
+        elif ev[0] in ("U", "K"):
             _, i = ev
             j = drivers[i].job if ev[0] == "U" else classes[i].job
-            del seen[:]
-            arg = f"arg{i}"
-            inp = j.prepare([arg, arg + "b"] if vectorized else arg)
-            inps = list(inp) if vectorized else [inp]
-            if not seen or any(x != seen[0] for x in seen) or len(inps) != (2 if vectorized else 1):
-                viol.append(("C17:bind:prepare-inconsistent", f"prepare produced {len(inps)} inputs / settings {seen}"))
-            exe, npr, mem, envd = seen[0]
-            for n_in, ji in enumerate(inps):
-                want_arg = (arg + "b" if n_in else arg)           # the caller's argument reaches the JobInput
-                if ji.commands[0][0] != f"{exe} -P {npr} -M {mem} {want_arg}" or ji.jid != want_arg or (ji.envars or {}) != (envd or {}) \
-                        or tuple(ji.return_files) != ("o.txt",):
-                    viol.append(("C17:bind:jobinput-differs-from-bound-job", f"{ji} vs bound {seen[0]}"))
-            obs.append((exe, npr, mem, envd))
-            # oracle, from the property text: the JobInput reflects THIS driver's settings (declared job settings and
-            # class attributes take precedence as documented by the `or` chains), whatever happened before
-            ca, s = cur[i] if ev[0] == "U" else (cur[i][0], dict(exe=None, nprocs=None, mem=None, env=None))
-            decl = effective_decl(decl, vectorized)
-            want_exe = decl.get("exe") or ca.get("exe") or s["exe"]
-            want_np = decl.get("nprocs") or ca.get("nprocs") or s["nprocs"] or 1
-            want_mem = decl.get("mem") or s["mem"] or 1000
-            want_env = {**(ca.get("env") or {}), **(s["env"] or {}), **(decl.get("env") or {})}
-            if (exe, npr, mem, envd or {}) != (want_exe, want_np, want_mem, want_env):
-                what = [n for n, a, b in (("executable", exe, want_exe), ("nprocs", npr, want_np), ("memory", mem, want_mem),
-                                          ("envars", envd or {}, want_env)) if a != b]
+            got = prepare_and_look(j, f"arg{i}")
+            del j
+            obs.append(got)
+            if got is None:
+                continue
+            # oracle, from the property text: the JobInput reflects THIS driver's settings, whatever happened before
+            ca, s = cur[i] if ev[0] == "U" else (cur[i][0], NO_INST)
+            what = diff(got, expected_bound(decl, vectorized, ca, s))
+            if what:
                 viol.append(("C17:bind:settings-of-another-driver:" + "+".join(what),
-                             f"driver {i} ({s}) was bound with executable={exe!r} nprocs={npr} memory={mem} envars={envd} "
-                             f"after events {[e[:2] for e in events]}"))
+                             f"driver {i} ({s}) was bound with executable={got[0]!r} nprocs={got[1]} memory={got[2]} envars={got[3]} "
+                             f"after events {[e[:3] if e[0] in ('G', 'GK') else e[:2] for e in events]}"))
+        elif ev[0] in ("G", "GK"):
+            _, i, h = ev
+            j = drivers[i].job if ev[0] == "G" else classes[i].job
+            ca, s = cur[i] if ev[0] == "G" else (cur[i][0], NO_INST)
+            got = (j.executable, j.nprocs, j.memory, None if j.envars is None else dict(j.envars))
+            gen = j.prepare([f"held{h}", f"held{h}b"]) if (vectorized and lazy) else None
+            held[h] = dict(job=j, gen=gen, i=i, ca=ca, s=s, kind=ev[0])     # replaces (drops) whatever h held before
+            del j
+            obs.append(got)
+            what = diff(got, expected_bound(decl, vectorized, ca, s))
+            if what:
+                viol.append(("C17:bind:settings-of-another-driver:" + "+".join(what),
+                             f"the job obtained through driver {i} ({s}) carries executable={got[0]!r} nprocs={got[1]} memory={got[2]} "
+                             f"envars={got[3]} after events {[e[:3] if e[0] in ('G', 'GK') else e[:2] for e in events]}"))
+        else:
+            _, h = ev
+            r = held.get(h)
+            if r is None:
+                obs.append(None)
+                continue
+            got = prepare_and_look(r["job"], f"held{h}", r["gen"])
+            r["gen"] = None
+            obs.append(got)
+            if got is None:
+                continue
+            # oracle: the job object was obtained through driver i.  The property text does not say whether a
+            # reassignment of driver i's OWN attributes between obtaining and using must show (molli: it does not, the
+            # model states that); so each field may be driver i's at the moment of obtaining or now -- never anything else
+            i = r["i"]
+            at_obtain = expected_bound(decl, vectorized, r["ca"], r["s"])
+            now = expected_bound(decl, vectorized, cur[i][0], cur[i][1] if r["kind"] == "G" else NO_INST)
+            what = diff(got, at_obtain, now)
+            if what:
+                viol.append(("C17:bind:held-job-settings-of-another-driver:" + "+".join(what),
+                             f"the job obtained through driver {i} ({r['s']}) and kept in a variable built its input with "
+                             f"executable={got[0]!r} nprocs={got[1]} memory={got[2]} envars={got[3]}; events "
+                             f"{[e[:3] if e[0] in ('G', 'GK') else e[:2] for e in events]}"))
     return obs, viol
 
 
@@ -553,7 +619,11 @@ def cq_bcase(decl, events, obs):
         if ev[0] == "C": evs.append(f"BCreate {ev[1]}%N {cq_settings(ev[2])} {cq_settings(ev[3])}")
         elif ev[0] == "S": evs.append(f"BSet {ev[1]}%N {cq_settings(ev[2])}")
         elif ev[0] == "U": evs.append(f"BUse {ev[1]}%N")
-        else: evs.append(f"BUseCls {ev[1]}%N")
+        elif ev[0] == "K": evs.append(f"BUseCls {ev[1]}%N")
+        elif ev[0] == "G": evs.append(f"BGet {ev[1]}%N {ev[2]}%N")
+        elif ev[0] == "GK": evs.append(f"BGetCls {ev[1]}%N {ev[2]}%N")
+        elif ev[0] == "P": evs.append(f"BPrep {ev[1]}%N")
+        else: raise ValueError(ev)
     return f"(mk_bcase {cq_settings(decl)} [{'; '.join(evs)}] {cq_l(obs, lambda o: cq_o(o, cq_bound))})"
 
 
@@ -591,6 +661,93 @@ def binding_cases(rng, thorough):
     return out
 
 
+def held_orders(nd, interleave_create):
+    """every order of obtaining the bound job through each of nd drivers (G i: h_i = d_i.job, kept) and using the kept
+    objects (P i: h_i.prepare(..)), each G before its P; with interleave_create the creations take part as well
+    (C i before G i), otherwise all drivers are created first (all LIVE while the jobs are held)."""
+    evs = [("G", i) for i in range(nd)] + [("P", i) for i in range(nd)]
+    if interleave_create:
+        evs = [("C", i) for i in range(nd)] + evs
+    for perm in itertools.permutations(evs):
+        pos = {e: k for k, e in enumerate(perm)}
+        if all(pos[("G", i)] < pos[("P", i)] for i in range(nd)) and \
+                (not interleave_create or all(pos[("C", i)] < pos[("G", i)] for i in range(nd))):
+            yield ([] if interleave_create else [("C", i) for i in range(nd)]) + list(perm)
+
+
+def max_held_between(evs):
+    """largest number of bound jobs obtained through DISTINCT drivers that are held at the moment one of them is used"""
+    held, best = {}, 0
+    for e in evs:
+        if e[0] in ("G", "GK"):
+            held[e[2]] = e[1]
+        elif e[0] == "P" and e[1] in held:
+            best = max(best, len(set(held.values())))
+    return best
+
+
+def held_cases(rng, thorough):
+    """Histories in which OBTAINING the bound job through a driver and USING a previously obtained one are separate
+    events.  -> [(decl, events, vectorized, same_class, lazy, family)]"""
+    out = []
+    k = 0
+    # (a) systematic: every interleaving of obtain/use over 2..3 live drivers (2 drivers: creations interleaved too)
+    for nd, inter in ((2, True), (2, False), (3, False)):
+        for order in held_orders(nd, inter):
+            nvar = (4 if nd == 2 else 1) if not thorough else 4
+            for variant in range(nvar):
+                v = (k + variant) if nd == 3 else variant
+                decl = DECLS[(k // 3 + v) % len(DECLS)] if v % 2 else {}
+                same = v % 4 in (0, 3)                        # several instances of ONE class / a subclass per driver
+                ca = CLS_ATTRS[(k + v) % 3] if v % 4 >= 2 else {}
+                sets = rng.sample(SETTINGS_POOL, nd) if v % 2 else SETTINGS_POOL[:nd]
+                evs = []
+                for kind, i in order:
+                    if kind == "C": evs.append(("C", i, ca if same else (CLS_ATTRS[(k + i) % 3] if v % 4 >= 2 else {}), sets[i]))
+                    elif kind == "G": evs.append(("G", i, i))
+                    else: evs.append(("P", i))
+                vec = (k + variant) % 3 == 2
+                out.append((decl, evs, vec, same, vec and (k + variant) % 2 == 0, f"held-orders-{nd}"))
+                k += 1
+    # (b) directed: repeated obtains through the same driver, reassignment between obtain and use, class-level obtains,
+    # a variable re-bound to another driver's job, immediate uses in between
+    for decl in [dict()] + DECLS[1:] + [dict(env={"LC": "C"}, nprocs=3)]:
+        for ca in CLS_ATTRS:
+            for a, b in itertools.permutations(range(len(SETTINGS_POOL)), 2):
+                if (a + 2 * b + len(out)) % (1 if thorough else 3):
+                    continue
+                c = next(x for x in range(len(SETTINGS_POOL)) if x not in (a, b))
+                same = (a + b + len(out)) % 2 == 0
+                evs = [("C", 0, ca, SETTINGS_POOL[a]), ("C", 1, ca if same else {}, SETTINGS_POOL[b]),
+                       ("G", 0, 0), ("G", 0, 1), ("S", 0, SETTINGS_POOL[c]), ("G", 0, 2), ("G", 1, 3),
+                       ("P", 0), ("P", 1), ("P", 2), ("P", 3), ("U", 0), ("P", 0), ("GK", 1, 4), ("P", 3), ("P", 4),
+                       ("K", 0), ("P", 2), ("G", 1, 0), ("P", 0), ("P", 2), ("U", 1), ("P", 1)]
+                vec = len(out) % 4 == 3
+                out.append((decl, evs, vec, same, vec and len(out) % 8 == 3, "held-directed"))
+    # (c) seeded random histories over all event kinds, up to 4 variables holding jobs
+    for r in range(800 if thorough else 120):
+        nd = rng.choice((2, 3))
+        same = rng.random() < 0.5
+        ca_all = rng.choice(CLS_ATTRS)
+        decl = rng.choice(DECLS) if rng.random() < 0.5 else {}
+        evs = [("C", i, ca_all if same else rng.choice(CLS_ATTRS), rng.choice(SETTINGS_POOL)) for i in range(nd)]
+        have = []
+        for _ in range(rng.randint(8, 14)):
+            t = rng.choice("GGGPPPPUKSC" if have else "GGGUS") if rng.random() < 0.9 else "GK"
+            i = rng.randrange(nd)
+            if t == "G": h = rng.randrange(4); evs.append(("G", i, h)); have.append(h)
+            elif t == "GK": h = rng.randrange(4); evs.append(("GK", i, h)); have.append(h)
+            elif t == "P": evs.append(("P", rng.choice(have)))
+            elif t in "UK": evs.append((t, i))
+            elif t == "S": evs.append(("S", i, rng.choice(SETTINGS_POOL)))
+            else: evs.append(("C", i, ca_all if same else rng.choice(CLS_ATTRS), rng.choice(SETTINGS_POOL)))
+        for h in sorted(set(have)):
+            evs.append(("P", h))
+        vec = r % 3 == 1
+        out.append((decl, evs, vec, same, vec and r % 2 == 1, "held-random"))
+    return out
+
+
 def xtb_oracle(rng):
     """The shipped XTBDriver through every create/use order of 2..3 instances."""
     import molli as ml
@@ -616,6 +773,20 @@ def xtb_oracle(rng):
                     if sets[i][2] and not all((inp.envars or {}).get(a) == b for a, b in sets[i][2].items()):
                         viol.append(("C17:bind:driver-envars-not-forwarded:XTBDriver",
                                      f"XTBDriver(envars={sets[i][2]}).{jobname}.prepare(mol).envars == {inp.envars!r}"))
+    # the jobs of 2..3 live drivers obtained first (every order) and used afterwards (every order)
+    for nd in (2, 3):
+        ds = [XTBDriver(sets[i][0], nprocs=sets[i][1], envars=sets[i][2], check_exe=False, find=False) for i in range(nd)]
+        for jobname in ("optimize_m", "energy_m"):
+            for get_order in itertools.permutations(range(nd)):
+                for use_order in itertools.permutations(range(nd)):
+                    jobs = {i: getattr(ds[i], jobname) for i in get_order}       # all held at the same time
+                    for i in use_order:
+                        cmd = jobs[i].prepare(mol).commands[0][0]
+                        n += 1
+                        if not cmd.startswith(sets[i][0] + " ") or f" -P {sets[i][1]} " not in cmd + " ":
+                            viol.append((f"C17:bind:held-job-settings-of-another-driver:XTBDriver.{jobname}",
+                                         f"jobs obtained in order {get_order} and kept; the one of XTBDriver({sets[i][0]!r}, "
+                                         f"nprocs={sets[i][1]}) produced command {cmd!r} (use order {use_order})"))
     return n, viol
 
 
@@ -658,17 +829,28 @@ def run(ctx, rep):
     bad = vlib.run_shards(ctx, rep, "c17r", HEADER, "check_rcase", terms, shard=40, case_type="rcase")
     # ---- (i) binding
     bterms, bmeta = [], []
-    for decl, evs, vec in binding_cases(rng, ctx.thorough):
-        o, viol = run_binding_case(P, decl, evs, vec)
+    allb = [(d, e, v, False, False, "create-use") for d, e, v in binding_cases(rng, ctx.thorough)] + held_cases(rng, ctx.thorough)
+    for decl, evs, vec, same, lazy, fam in allb:
+        o, viol = run_binding_case(P, decl, evs, vec, same, lazy)
         t = cq_bcase(effective_decl(decl, vec), evs, o)
-        bterms.append(t); bmeta.append((decl, evs, vec))
-        rep.case(key=t, sample={"decl": decl, "events": [e[:2] for e in evs], "obs": o} if len(bterms) % 61 == 7 else None)
+        bterms.append(t); bmeta.append((decl, evs, vec, same, lazy))
+        rep.case(key=t + ("/same" if same else "") + ("/lazy" if lazy else "") + ("/vec" if vec else ""),
+                 sample={"decl": decl, "events": [e[:3] if e[0] in ("G", "GK") else e[:2] for e in evs], "obs": o, "family": fam}
+                 if len(bterms) % 61 == 7 else None)
+        rep.count("bind:family:" + fam)
         rep.count("bind:vectorized" if vec else "bind:single")
-        rep.count(f"bind:ndrivers:{len({e[1] for e in evs})}")
+        rep.count(f"bind:ndrivers:{len({e[1] for e in evs if e[0] == 'C'})}")
         rep.count("bind:declared:" + ("+".join(sorted(decl)) or "nothing"))
         rep.count("bind:class-attrs:" + ("+".join(sorted({k_ for e in evs if e[0] == "C" for k_ in e[2]})) or "none"))
+        rep.count("bind:classes:" + ("instances-of-one-class" if same else "subclass-per-driver"))
+        rep.count(f"bind:jobs-of-distinct-drivers-held-at-a-use:{max_held_between(evs)}")
+        rep.count("bind:events:obtain-and-keep", sum(e[0] in ("G", "GK") for e in evs))
+        rep.count("bind:events:use-kept-job", sum(e[0] == "P" for e in evs))
+        rep.count("bind:events:use-at-once", sum(e[0] in ("U", "K") for e in evs))
+        if lazy:
+            rep.count("bind:kept-as-lazy-generator-of-vectorised-prepare")
         for sig, text in viol:
-            rep.violate(sig, text, {"kind": "bind", "decl": decl, "events": evs, "vec": vec})
+            rep.violate(sig, text, {"kind": "bind", "decl": decl, "events": evs, "vec": vec, "same_class": same, "lazy": lazy})
     nx, xviol = xtb_oracle(rng)
     rep.count("bind:xtb-prepare-calls", nx)
     for sig, text in xviol:
@@ -686,7 +868,7 @@ def run(ctx, rep):
             rep.extra[name + "_mismatching"] = len(b)
             if not found:
                 first = metas[b[0]]
-                detail = json.dumps(_ser_case(first) if isinstance(first, dict) else [first[0], [list(e) for e in first[1]], first[2]], default=str)[:1500]
+                detail = json.dumps(_ser_case(first) if isinstance(first, dict) else [first[0], [list(e) for e in first[1]]] + list(first[2:]), default=str)[:1500]
                 rep.violate("broken:" + name, f"model and implementation disagree on {len(b)} case(s) (first: {detail}) but the "
                             "oracle finds no property violation on them", {"obligation": name, "first": detail}, no_input=True)
     return tuple(sorted({v.sig for v in rep.violations if v.sig.startswith("C17:bind:driver-envars-not-forwarded")}))
@@ -716,7 +898,7 @@ def replay(ctx, data):
         out += [vlib.Violation(s, t) for s, t in spec_judge(c, o)]
     elif data.get("kind") == "bind":
         evs = [tuple(e) for e in data["events"]]
-        _, viol = run_binding_case(P, data["decl"], evs, data["vec"])
+        _, viol = run_binding_case(P, data["decl"], evs, data["vec"], data.get("same_class", False), data.get("lazy", False))
         out += [vlib.Violation(s, t) for s, t in viol]
     elif data.get("kind") == "xtb":
         out += [vlib.Violation(s, t) for s, t in xtb_oracle(ctx.rng)[1]]
